@@ -1,32 +1,26 @@
-(* Findings/C11_F22.v -- finding F22 (property C11), for the reader.
+(* Findings/C11_F22.v -- finding F22 (property C11), FIXED by /repo commit 64d926d; kept for the reader.
 
-   WHAT FAILS.  will_close := True written by HTTPChannel._flush_exception -- on a worker inside
+   WHAT FAILED.  will_close := True written by HTTPChannel._flush_exception -- on a worker inside
    write_soon / _flush_outbufs_below_high_watermark (do_close=False), or on the I/O thread inside
    handle_write -- after a send error that is NOT in wasyncore._DISCONNECTED (EHOSTUNREACH, ENETDOWN,
-   ENOBUFS, ...) is a close decision that (a) is not taken under requests_lock and (b) is not read
-   by service(): its chaining step is `if self.connected and self.requests: add_task`, and its
-   first test is `if self.connected:`.  A request buffered behind the one being served is
-   therefore submitted and executed by the application after the decision; the channel is
-   closed only when handle_write next runs `if self.will_close: self.handle_close()`.
+   ENOBUFS, ...) was a close decision that (a) is not taken under requests_lock and (b) was not read
+   by service(), whose first test was `if self.connected:`.  A request buffered behind the one being
+   served was submitted and executed by the application after the decision.
 
-   REAL CODE (checks/C11.py, replayable): two pipelined GETs in one read, the first send of the
-   first response fails with EHOSTUNREACH: trace `decide(will_close by waitress-0)`,
-   `service_start`, `app_call /r1` under the default schedule; the I/O-thread variant (send plan
-   [EWOULDBLOCK, EHOSTUNREACH]) needs two pre-emptions (I/O thread stopped between
-   `will_close = True` and handle_close()).
+   Real code, before the fix: two pipelined GETs in one read, the first send of the first response
+   fails with EHOSTUNREACH: `decide(will_close by waitress-0)`, `service_start`, `app_call /r1` under
+   the default schedule; the I/O-thread variant (send plan [EWOULDBLOCK, EHOSTUNREACH]) needed two
+   pre-emptions (I/O thread stopped between `will_close = True` and handle_close()).
 
-   MODEL.  Proof/ChanCloseRefute.v: sched_f22, sched_f22_io; the traces are computed by vm_compute
-   (f22_trace, f22_io_trace); C11_full_refuted : ~ C11_full.  The theorem that holds,
-   C11_partial (Props/C11.v), is the same statement for every other kind of decision
-   (covered k = true).
-
-   REPAIR (not applied here).  In service():  `if self.connected and not self.will_close:
-   task.service() else: task.close_on_finish = True`.  Then every decision is monotone and read
-   after the service() entry, the late invocation takes the close branch (close_when_flushed,
-   requests cleared under the lock) and the full statement holds.  Testing will_close only before
-   chaining (`if task.close_on_finish or self.will_close:`) repairs the worker-side case but
-   leaves a window for the I/O-side one (decision between that test and add_task). *)
-From WV Require Import Lib.Conc Model.ChanClose Proof.ChanCloseRefute.
-Check C11_full_refuted.
-Check C11_refuted_worker_flush.
-Check C11_refuted_io_flush.
+   THE FIX.  service(): `if self.connected and not self.will_close: task.service() else:
+   task.close_on_finish = True`.  will_close is never reset, the read comes after the entry of
+   service(): the late invocation takes the close branch (close_when_flushed, requests cleared under
+   the lock).  Model: program point WSvc1b; theorem C11 (Props/C11.v) now covers every kind of
+   decision; the two schedules are replayed in Proof/ChanCloseStmt.v (f22_trace_now,
+   f22_io_trace_now): LServiceStart 1 is followed by LDecide DWorkerClose, not by LAppCall.
+   checks/C11.py keeps both scenarios as directed cases (a revert of 64d926d is reported with
+   scenario and schedule). *)
+From WV Require Import Lib.Conc Model.ChanClose Proof.ChanCloseStmt.
+Check C11_full_holds.
+Check f22_trace_now.
+Check f22_io_trace_now.
